@@ -70,8 +70,13 @@ func (p *cfmt) Case(i int) fw.Case {
 		pool := validXGoPool(p.Env)
 		base := fw.Pick(r, pool)
 		if r.Bool() {
-			b2, _ := astSource(p.Env, r, 1<<30)
-			base = b2
+			for {
+				b2, k2 := astSource(p.Env, r, 1<<30)
+				if k2 != "inject" { // the base must be free of injected comments
+					base = b2
+					break
+				}
+			}
 		}
 		injs := drawInjections(r, base.Src, r.Range(1, 4))
 		c := fw.Case{Kind: "inject", In: applyInjections(base.Src, injs), Aux: append([]string{string(base.Src)}, injs...)}
@@ -274,6 +279,13 @@ func (p *cfmt) Run(c fw.Case, r *fw.Rec) {
 			where = append(where, injectionSite(base, in))
 		}
 		sortStrings(where)
+		uniq := where[:0]
+		for i, w := range where {
+			if i == 0 || w != where[i-1] {
+				uniq = append(uniq, w)
+			}
+		}
+		where = uniq
 		min := srcItem{Name: it.Name, Class: it.Class, Src: applyInjections(base.Src, best)}
 		pr := fw.NewScratchRec(c)
 		p.eval(c, min, pr)
